@@ -148,9 +148,181 @@ ASSUMED = [
 # =========================================================================================================================
 # engine extensions (the house rules forbid editing vc/symexec.py)
 # =========================================================================================================================
+def _typenames(tn):
+    """type names of the second argument of isinstance (source text): 'tuple', '(list, tuple)', 'list | tuple', 'np.ndarray',
+    'collections.abc.Sequence' -> list of (last) names; None when it is not a plain name / tuple / union of names"""
+    try:
+        node = ast.parse(tn, mode="eval").body
+    except SyntaxError:
+        return None
+    out = []
+
+    def walk(n):
+        if isinstance(n, ast.Tuple):
+            return all(walk(x) for x in n.elts)
+        if isinstance(n, ast.BinOp) and isinstance(n.op, ast.BitOr):
+            return walk(n.left) and walk(n.right)
+        if isinstance(n, ast.Name):
+            out.append(n.id)
+            return True
+        if isinstance(n, ast.Attribute):
+            out.append(n.attr)
+            return True
+        return False
+    return out if walk(node) else None
+
+
+SEQ_SUPERTYPES = {"Sequence", "Iterable", "Collection", "Sized", "Container", "Reversible", "object"}
+NOT_A_SEQUENCE_OF_CONDITIONS = {"str", "bytes", "bytearray", "dict", "set", "frozenset", "int", "float", "bool", "complex", "ndarray", "Series",
+                                "DataFrame", "Index", "Mapping", "MutableMapping", "Set", "Number", "Integral", "Real", "NoneType", "range",
+                                "generic", "integer", "floating", "bool_", "str_", "datetime64", "Timestamp"}
+TYPE_BOOLS = {}          # name of a container-type Boolean -> what it says (for the counter-models)
+
+
+def _container_bool(prefix, label):
+    _container_bool.n += 1
+    b = z3.Bool(f"{prefix}_written_as_tuple!{_container_bool.n}")
+    TYPE_BOOLS[str(b)] = label
+    return b
+
+
+_container_bool.n = 0
+
+
+def _seq_isinstance(eng, obj, is_tuple, tn):
+    """isinstance(<condition or group>, tn): the grammar says 3-SEQUENCE (column, op, value) / sequence of conditions - the Python
+    container type is NOT fixed by it (tuples and lists are both in use: the project's tests and JSON-loaded filters write
+    lists): `tuple` is a free Boolean per object, `list` its negation; `is_tuple` None = a list (the outer list)"""
+    names = _typenames(tn)
+    if names is None:
+        return eng.fresh("isinstance_of_computed_type", z3.BoolSort())
+    terms = []
+    for n in names:
+        if n in SEQ_SUPERTYPES:
+            return z3.BoolVal(True)
+        if n == "tuple":
+            terms.append(is_tuple if is_tuple is not None else z3.BoolVal(False))
+        elif n in ("list", "MutableSequence"):
+            terms.append(z3.Not(is_tuple) if is_tuple is not None else z3.BoolVal(True))
+        elif n in NOT_A_SEQUENCE_OF_CONDITIONS:
+            continue
+        else:
+            # a name this contract does not know (a local holding a type, a user class): undecided, the same answer each time
+            memo = obj.__dict__.setdefault("_isinst_memo", {})
+            if n not in memo:
+                memo[n] = eng.fresh("isinstance_" + n, z3.BoolSort())
+            terms.append(memo[n])
+    return z3.simplify(z3.Or(*terms)) if terms else z3.BoolVal(False)
+
+
+def _consts_of(e, acc, seen):
+    if e.get_id() in seen:
+        return
+    seen.add(e.get_id())
+    if z3.is_const(e) and e.decl().kind() == z3.Z3_OP_UNINTERPRETED:
+        acc.add(str(e))
+    for c in e.children():
+        _consts_of(c, acc, seen)
+
+
+def _written_as(m, pc):
+    """which container types the counter-model picked for the conditions / groups the path asked about"""
+    names, seen = set(), set()
+    for c in pc:
+        if z3.is_expr(c):
+            _consts_of(c, names, seen)
+    out = {}
+    for n in sorted(names & set(TYPE_BOOLS)):
+        v = m.eval(z3.Bool(n), model_completion=True)
+        out[TYPE_BOOLS[n]] = "tuple" if z3.is_true(v) else "list"
+    return out
+
+
 class RFEngine(Engine):
     """+ `~x` on proof-script objects, calls of subscripted callables (`ops[op](...)`), `is` between a proof-script object and
-    a bool, `[None] * n`."""
+    a bool, `[None] * n`; calls of helper functions DEFINED IN api.py ITSELF (module-level functions, methods of ParquetFile)
+    are executed from their real source (`inline_helper`); a helper that cannot be executed is an opaque call as before."""
+
+    res = None
+    or_loops = None
+    all_inlined = set()           # helpers executed from source in this check (registered in the evidence)
+
+    def __init__(self, *a, **kw):
+        super().__init__(*a, **kw)
+        self.inline_stack = []
+        self.not_inlined = {}         # helper -> why it stayed opaque
+
+    # ---- helpers of api.py: executed, not havoc'd -------------------------------------------------------------------------
+    def call_named(self, name, selfobj, e, p):
+        if name in self.handlers or name not in self.funcs:
+            return super().call_named(name, selfobj, e, p)
+        out = []
+        for q, (args, kw) in self.ev_args(e, p):
+            if selfobj is not None:
+                args = [selfobj] + args
+            r = self.inline_helper(name, q, args, kw, e)
+            if r is None:
+                self.check_untracked(args, kw, name, e)
+                r = [(q, Opaque(("call", name, next(self.counter))))]
+            out += r
+        return out
+
+    def inline_helper(self, name, p, args, kw, node):
+        """run the real source of funcs[name] on a fork of p -> [(path, value)]; None when it is out of reach (Unsupported inside,
+        recursion): everything the attempt recorded is rolled back and the caller treats the call as opaque"""
+        if name not in self.funcs or name in self.inline_stack or len(self.inline_stack) >= 4:
+            return None
+        res = self.res
+        snap = (len(self.oblig), dict(self.loop_ord), self.cur_func, len(self.or_loops) if self.or_loops is not None else 0,
+                ({k: len(v) for k, v in res.d.items()}, len(res.order)) if res is not None else None)
+        self.inline_stack.append(name)
+        try:
+            outs = self.run(name, p.fork(), args, kw)
+        except Unsupported as ex:
+            del self.oblig[snap[0]:]
+            self.loop_ord, self.cur_func = snap[1], snap[2]
+            if self.or_loops is not None:
+                del self.or_loops[snap[3]:]
+            if res is not None:
+                lens, n = snap[4]
+                for k in res.order[n:]:
+                    res.d.pop(k, None)
+                del res.order[n:]
+                for k, ln in lens.items():
+                    del res.d[k][ln:]
+            self.not_inlined[name] = str(ex)
+            return None
+        finally:
+            self.inline_stack.pop()
+        self.loop_ord.update({k: v for k, v in snap[1].items() if k != name})
+        self.inlined.add(name)
+        RFEngine.all_inlined.add(name)
+        out = []
+        for r in outs:
+            if r.ctl[0] == "ret":
+                v = r.ctl[1]
+                r.ctl = None
+                out.append((r, v))
+            else:
+                out.append((r, Opaque("raised")))         # the path keeps ctl = ('raise', ..): a finished path of the caller
+        return out
+
+    def s_For(self, st, p):
+        """the iterable is evaluated first: a path on which that evaluation RAISED (inside an executed helper) is finished"""
+        it = st.iter
+        if isinstance(it, ast.Name) or (isinstance(it, ast.Call) and isinstance(it.func, ast.Name) and it.func.id == "range"):
+            return super().s_For(st, p)
+        outs = []
+        for q, coll in self.ev(it, p):
+            if q.ctl is not None:
+                outs.append(q)
+                continue
+            tmp = f"__iterable{next(self.counter)}"
+            q.env[tmp] = coll
+            st2 = ast.copy_location(ast.For(target=st.target, iter=ast.copy_location(ast.Name(id=tmp, ctx=ast.Load()), it),
+                                            body=st.body, orelse=st.orelse), st)
+            outs += super().s_For(st2, q)
+        return outs
 
     def e_UnaryOp(self, e, p):
         if isinstance(e.op, ast.Invert):
@@ -244,6 +416,23 @@ def _assigned_names(st):
     return sorted(names)
 
 
+def _helper_array_args(st, eng, p):
+    """boolean arrays of the model that the loop body hands to a helper of api.py: the helper may update them in place (`acc &= ..`
+    inside it mutates the caller's array) - they count as assigned by the loop body"""
+    out = set()
+    for n in ast.walk(ast.Module(body=st.body, type_ignores=[])):
+        if not isinstance(n, ast.Call):
+            continue
+        f = n.func
+        callee = f.id if isinstance(f, ast.Name) else "ParquetFile." + f.attr if isinstance(f, ast.Attribute) else None
+        if callee not in eng.funcs or callee in eng.handlers:
+            continue
+        for a in list(n.args) + [k.value for k in n.keywords]:
+            if isinstance(a, ast.Name) and isinstance(p.env.get(a.id), Custom) and isinstance(p.env[a.id].h, BoolArr):
+                out.add(a.id)
+    return out
+
+
 def _pose(eng, p, name, goal, detail, model_fn=None, extra=()):
     """solve now (the conditional cuts need the status), record in eng.res"""
     st, m, secs = solve([*p.pc, *p.axioms, *extra, z3.Not(goal)], eng.timeout)
@@ -253,6 +442,12 @@ def _pose(eng, p, name, goal, detail, model_fn=None, extra=()):
             mdl = model_fn(m) if model_fn else {"z3_model": str(m)[:400]}
         except Exception:           # a model printer must never turn a verdict into a crash
             mdl = {"z3_model": str(m)[:400]}
+        try:
+            wa = _written_as(m, p.pc)
+            if wa and isinstance(mdl, dict):
+                mdl["written_as"] = wa
+        except Exception:
+            pass
     eng.res.add(name, st, mdl, secs, "z3", detail)
     return st
 
@@ -269,6 +464,7 @@ class BoolArr(H):
     """numpy boolean array OBJECT: value at the witness row (per path: p.ghost[('arr', id)], so that the in-place operators
     are seen through every name bound to the object), length"""
     _ids = [0]
+    tracked = True          # mutated in place by |=, &=: never silently passed through a call this contract cannot execute
 
     def __init__(self, val, n, origin=""):
         self.init, self.n, self.origin = val, n, origin
@@ -495,10 +691,20 @@ class PFSelf(H):
             return Custom(Cats())
         return Opaque("pf." + name)
 
+    def call_method(self, eng, p, name, args, kw, node):
+        # a helper METHOD of ParquetFile: executed from its real source
+        r = eng.inline_helper("ParquetFile." + name, p, [Custom(self)] + list(args), kw, node) if hasattr(eng, "inline_helper") else None
+        if r is None:
+            raise Unsupported(f"self.{name}(): " + getattr(eng, "not_inlined", {}).get("ParquetFile." + name, "not a method of ParquetFile in api.py"))
+        return r
+
 
 class Atom(H):
-    def __init__(self, col, op, val, opclass=None):
+    """a condition: a 3-sequence (column, op, value).  Whether it is written as a tuple or as a list is NOT fixed (free Boolean)"""
+
+    def __init__(self, col, op, val, opclass=None, label="a condition"):
         self.col, self.op, self.val, self.opclass = col, op, val, opclass
+        self.is_tuple = _container_bool("condition", label)
 
     def parts(self):
         return [Custom(ColName(self.col)), self.op, Custom(ValSym(self.val))]
@@ -522,7 +728,7 @@ class Atom(H):
         return PyI(3)
 
     def isinstance(self, eng, p, tn):
-        return z3.BoolVal("tuple" in tn)
+        return _seq_isinstance(eng, self, self.is_tuple, tn)
 
 
 def _havoc(eng, q, names):
@@ -554,6 +760,8 @@ class AtomList(H):
         self.gid, self.label = gid, label
         self.n = eng.fresh_int("n_atoms")
         self.items = {}
+        # an AND group is a list or a tuple of conditions (free); the outer `filters` is a list (property text, docstrings)
+        self.is_tuple = _container_bool("group", "an AND group") if label == "group" else None
 
     def len(self, eng, p):
         return PyI(self.n)
@@ -562,7 +770,7 @@ class AtomList(H):
         return self.n > 0
 
     def isinstance(self, eng, p, tn):
-        return z3.BoolVal("list" in tn)
+        return _seq_isinstance(eng, self, self.is_tuple, tn)
 
     def getitem(self, eng, p, i, node):
         k = z3.simplify(eng.as_int(i))
@@ -571,7 +779,8 @@ class AtomList(H):
         key = str(k)
         if key not in self.items:
             j = next(eng.counter)
-            self.items[key] = Custom(Atom(z3.Const(f"shape_col!{j}", ColS), Custom(AnyOp()), z3.Const(f"shape_val!{j}", ValS)))
+            self.items[key] = Custom(Atom(z3.Const(f"shape_col!{j}", ColS), Custom(AnyOp()), z3.Const(f"shape_val!{j}", ValS),
+                                          label=("filters" if self.label == "flat" else "group") + f"[{key}]"))
         return self.items[key]
 
     def arbitrary(self, eng, p):
@@ -585,7 +794,7 @@ class AtomList(H):
     # ---- the loop over the atoms --------------------------------------------------------------------------------------
     def for_loop(self, eng, p, st):
         tag = eng.shape
-        assigned = _assigned_names(st)
+        assigned = sorted(set(_assigned_names(st)) | _helper_array_args(st, eng, p))
         accs = [v for v in assigned if isinstance(p.env.get(v), Custom) and isinstance(p.env[v].h, BoolArr)]
         ok = True
         if not accs:
@@ -602,7 +811,7 @@ class AtomList(H):
             body = p.fork()
             pre = _havoc(eng, body, assigned)
             j = next(eng.counter)
-            atom = Atom(z3.Const(f"col!{j}", ColS), opv, z3.Const(f"val!{j}", ValS), cls)
+            atom = Atom(z3.Const(f"col!{j}", ColS), opv, z3.Const(f"val!{j}", ValS), cls, label="the condition of this iteration")
             body.ghost["cur_atom"] = atom
             for b in eng.assign(st.target, Custom(atom), body):
                 for r in eng.block(st.body, [b]):
@@ -706,7 +915,7 @@ class GroupList(H):
         return self.n > 0
 
     def isinstance(self, eng, p, tn):
-        return z3.BoolVal("list" in tn)
+        return _seq_isinstance(eng, self, None, tn)
 
     def getitem(self, eng, p, i, node):
         k = z3.simplify(eng.as_int(i))
@@ -714,8 +923,9 @@ class GroupList(H):
         key = str(k)
         if key not in self.items:
             g = self.new_group(eng)
-            p.pc.append(g.n >= 1)
+            TYPE_BOOLS[str(g.is_tuple)] = f"filters[{key}] (an AND group)"
             self.items[key] = Custom(g)
+        p.pc.append(self.items[key].h.n >= 1)
         return self.items[key]
 
     def arbitrary(self, eng, p):
@@ -728,7 +938,7 @@ class GroupList(H):
 
     def for_loop(self, eng, p, st):
         tag = eng.shape
-        assigned = _assigned_names(st)
+        assigned = sorted(set(_assigned_names(st)) | _helper_array_args(st, eng, p))
         accs = [v for v in assigned if isinstance(p.env.get(v), Custom) and isinstance(p.env[v].h, BoolArr)]
         rec = {"entry": {v: (p.env[v].h.get(p), list(p.pc), list(p.axioms)) for v in accs}, "steps": [], "exit": {}, "late": {}}
         eng.or_loops.append(rec)
@@ -740,7 +950,7 @@ class GroupList(H):
                 body = p.fork()
                 pre = _havoc(eng, body, assigned)
                 j = next(eng.counter)
-                atom = Atom(z3.Const(f"col!{j}", ColS), opv, z3.Const(f"val!{j}", ValS), cls)
+                atom = Atom(z3.Const(f"col!{j}", ColS), opv, z3.Const(f"val!{j}", ValS), cls, label="the bare condition of this iteration")
                 for b in eng.assign(st.target, Custom(atom), body):
                     for r in eng.block(st.body, [b]):
                         if r.ctl in (None, "continue"):
@@ -1513,6 +1723,12 @@ class PF2(H):
         if name == "open":
             tr.append(("open", {}, None))
             return [(p, Opaque("infile"))]
+        # any other method of ParquetFile (a helper the function was refactored into): executed from its real source; the calls
+        # IT makes are recorded.  Out of reach -> an opaque call, as before
+        r = eng.inline_helper("ParquetFile." + name, p, [Custom(self)] + list(args), kw, node)
+        if r is not None:
+            return r
+        eng.check_untracked(args, kw, "self." + name, node)
         tr.append((name, {}, None))
         return [(p, Opaque(("pf." + name + "()", next(eng.counter))))]
 
@@ -1824,6 +2040,7 @@ def check(ctx, timeout):
     for m in ("_column_filter", "_columns_from_filters", "to_pandas", "count"):
         f = funcs["ParquetFile." + m]
         ctx.function("api.ParquetFile." + m, f.sha, f.report)
+    RFEngine.all_inlined = set()
     out = []
 
     def guarded(label, fn, *a):
@@ -1847,6 +2064,8 @@ def check(ctx, timeout):
     for mode in ("mask", "filters", "none"):
         guarded(f"to_pandas[{mode}]", run_to_pandas, ctx, funcs, timeout, mode)
     guarded("count", run_count, ctx, funcs, timeout)
+    for name in sorted(RFEngine.all_inlined):
+        ctx.function("api." + name, funcs[name].sha, funcs[name].report)
     return out
 
 
@@ -1895,6 +2114,14 @@ def _oracle(df, part, filters):
     return out
 
 
+def _as_lists(f):
+    """the same filter with every condition written as a LIST [column, op, value] (what json / yaml loading gives, and what the
+    project's own tests write)"""
+    if isinstance(f[0][0], str):
+        return [list(a) for a in f]
+    return [[list(a) for a in g] for g in f]
+
+
 def replay_native(name, model):
     """-> (confirmed, text)"""
     import tempfile
@@ -1912,8 +2139,11 @@ def replay_native(name, model):
         if fam in ("column_filter", "ops_table", "columns_from_filters"):
             df = pd.DataFrame({"x": [1, 2, 3, 4, 5, 6], "y": [6, 5, 4, 3, 2, 1], "b": [True, False, True, True, False, False]})
 
-            class Mock:
+            class Mock(api.ParquetFile):         # the real methods (helper methods included), no file behind it
                 cats = {"p": [1, 2]}
+
+                def __init__(self):
+                    pass
             part = {"p": 1}
             progs = [[("x", ">", 2), ("x", "<", 5)], [[("x", ">", 2), ("x", "<", 5)]], [[("x", ">", 4)], [("y", ">", 4)]],
                      [[("x", ">=", 2), ("y", ">=", 2), ("x", "!=", 3)], [("x", "==", 1)], [("y", "=", 1), ("x", "<=", 6)]],
@@ -1923,6 +2153,7 @@ def replay_native(name, model):
                 progs = [[[("p", "==", 2), ("x", ">", 1)], [("x", "==", 4)]], [("p", "==", 2), ("x", ">", 1)]]
             if "unknown_operator" in name:
                 progs = [[("x", ">>", 3)], [[("x", ">", 4), ("x", "><", 0)], [("x", "<", 2)]]]
+            progs = progs + [_as_lists(f) for f in progs]          # conditions as tuples, then the same as lists
             for f in progs:
                 if fam == "columns_from_filters":
                     got = sorted(api.ParquetFile._columns_from_filters(Mock(), f + [("p", "==", 1)] if isinstance(f[0][0], str) else f + [[("p", "==", 1)]]))
@@ -1964,7 +2195,8 @@ def replay_native(name, model):
                     pass
                 except Exception as ex:
                     bad.append(f"to_pandas(row_filter=mask of length {n}) raised {type(ex).__name__} instead of ValueError")
-            for f in ([("x", ">", 2), ("x", "<", 10)], [[("x", "<", 3)], [("y", "<", 3.0)]], [("x", "in", [1, 4, 9, 12])], [("x", ">", 11)], [("x", ">", 0)]):
+            fs = [[("x", ">", 2), ("x", "<", 10)], [[("x", "<", 3)], [("y", "<", 3.0)]], [("x", "in", [1, 4, 9, 12])], [("x", ">", 11)], [("x", ">", 0)]]
+            for f in fs + [_as_lists(f) for f in fs]:
                 want = df[_oracle(df, {}, f)]
                 try:
                     got = pf.to_pandas(filters=f, row_filter=True)
